@@ -323,6 +323,16 @@ impl World {
         };
         let has_size_arg = matches!(op, Op::WithCapacity { .. } | Op::Reserve { .. } | Op::ShrinkTo { .. })
             || matches!(op, Op::Extend { it, .. } | Op::Collect { it, .. } if it.hint.is_some());
+        // ---- a refused allocator request is reported (Err or the documented panic), not swallowed. The only calls
+        // that may go on after a refusal are the iterator-driven ones, whose up-front reservation is a hint.
+        if matches!(real, Outcome::Ok(_)) && refusals > 0 && !matches!(op, Op::Extend { .. } | Op::Collect { .. }) {
+            let clause = if fault_refusals > 0 { "C05.refusal_unreported" } else { "C06.refusal_unreported" };
+            ctx.eval(clause);
+            f.push(Failure::new(
+                clause,
+                format!("{}: the allocator refused {refusals} request(s) during the call, yet it returned normally", op.name()),
+            ));
+        }
         match &real {
             Outcome::Ok(ret) => {
                 let m = self.apply_model(op, &r);
@@ -403,7 +413,9 @@ impl World {
                         ));
                     }
                 }
-                if matches!(real, Outcome::Panic(..)) && try_flag(op) && has_try_form(op) {
+                // FromStr::from_str / str::parse is a fallible form too: its only error is ReserveError
+                let fallible = (try_flag(op) && has_try_form(op)) || matches!(op, Op::FromText { via: Via::Parse, .. });
+                if matches!(real, Outcome::Panic(..)) && fallible {
                     for c in ["C05.try_form_panicked", "C06.try_form_panicked"] {
                         f.push(Failure::new(c, format!("try_ form of {} panicked instead of returning ReserveError", op.name())));
                     }
@@ -1163,6 +1175,21 @@ impl World {
                     ));
                 }
             }
+            // a "shared copy" (listed among the growth events): the private copy an append / insert / reserve makes of
+            // a shared buffer is sized by the same rule even when the shared buffer itself had room; only the upper
+            // bound is applied then (nothing was outgrown, so nothing needs amortising)
+            if need <= room && a.kind == Kind::Heap && a.rc.unwrap_or(1) >= 2 && b.kind == Kind::Heap && b.ptr != a.ptr {
+                let upper = (a.len + a.len / 2).max(need);
+                ctx.tag("growth_event");
+                ctx.growth.push((a.kind, a.len, add));
+                ctx.eval("C12.upper");
+                if b.cap > upper {
+                    f.push(Failure::new(
+                        "C12.upper",
+                        format!("{name}: the private copy of a shared heap string of len {} (+{add}) got capacity {}, above max(len + len/2, len + requested) = {upper}", a.len, b.cap),
+                    ));
+                }
+            }
         }
 
         // ---- C12 lower bound for operations that may grow in several steps (extend, multi-piece write!): every
@@ -1212,7 +1239,10 @@ impl World {
         }
 
         // ---- C13 shrinking
-        if let (true, Some(a), Some(b), true) = (matches!(op, Op::ShrinkTo { .. } | Op::ShrinkToFit { .. }), pre_t.as_ref(), post_t, real_ok) {
+        // ("afterwards ... no larger than before, never below len, never below m unless it already was" also holds
+        // after a shrink that failed; the exact landing size is what a successful call promises)
+        let shrink_done = real_ok || matches!(real, Outcome::ReserveErr | Outcome::Panic(PanicKind::Reserve, _));
+        if let (true, Some(a), Some(b), true) = (matches!(op, Op::ShrinkTo { .. } | Op::ShrinkToFit { .. }), pre_t.as_ref(), post_t, shrink_done) {
             let m = if matches!(op, Op::ShrinkToFit { .. }) { 0 } else { r.size };
             let target = a.len.max(m);
             ctx.eval("C13.no_grow");
@@ -1223,7 +1253,7 @@ impl World {
             if b.cap < m.min(a.cap) || b.cap < a.len {
                 f.push(Failure::new("C13.ge_min", format!("{name}({m}) on len {} capacity {}: capacity fell to {}", a.len, a.cap, b.cap)));
             }
-            if a.kind == Kind::Heap && a.cap > target {
+            if a.kind == Kind::Heap && a.cap > target && real_ok {
                 ctx.tag("shrink_nontrivial");
                 if a.rc.unwrap_or(1) >= 2 {
                     ctx.tag("shrink_shared");
